@@ -2,6 +2,7 @@ import Heathcliff.Proofs.NonVac
 import Heathcliff.Proofs.GenRns2
 import Heathcliff.Proofs.GenRns3
 import Heathcliff.Proofs.GenRns5
+import Heathcliff.Proofs.GenRnsW2
 
 /-!
   Non-vacuity of the hypothesis bundles of Proofs/GenRns2.lean (translator tie, phase 4c) in the concrete world of Proofs/NonVac.lean:
